@@ -26,11 +26,12 @@ type expectation struct {
 }
 
 func expect(c *Case, o *outcome) expectation {
-	e := expectation{first: o.fake.firstSTH, lo: c.Start}
+	e := expectation{first: o.firstSTH, lo: c.Start}
 	if c.Continuous {
 		e.hi = c.finalSize()
-		e.mustAll = o.stopIssued && o.stopAt >= c.lastGrowth()+c.settle()
+		e.mustAll = o.stopIssued && o.stopAt >= o.completeBy
 	} else {
+		// The first STH an object sees fixes EndIndex for every later call on it (Prepare caches it).
 		e.hi = c.End
 		if c.End == 0 || c.End > e.first {
 			e.hi = e.first
@@ -53,7 +54,7 @@ func judgeTermination(c *Case, o *outcome, v *harness.Verdict, what string) bool
 		v.Failf(a.Sig, "%s", a.Msg)
 	}
 	if o.raced {
-		v.Failf("data-race", "the race detector reported a data race during this case (see WARNING: DATA RACE in the test log); %s returned at %v, stop kind %d issued=%v at %v", what, o.returnedAt, c.StopKind, o.stopIssued, o.stopAt)
+		v.Failf("data-race", "the race detector reported a data race during this case (see WARNING: DATA RACE in the test log); %s (call %d) returned at %v, stop kind %d issued=%v at %v", what, o.phase, o.returnedAt, o.spec.StopKind, o.stopIssued, o.stopAt)
 	}
 	if o.deadlock != "" {
 		v.Failf("hang-after-cancel", "%s did not return even after its context was cancelled: %s", what, o.deadlock)
@@ -62,13 +63,13 @@ func judgeTermination(c *Case, o *outcome, v *harness.Verdict, what string) bool
 	if o.timedOut {
 		f := o.fake
 		switch {
-		case c.StopKind == stopStop && o.stopIssued && c.Continuous && (f.firstSTH < 0 || o.stopAt <= f.firstSTHAt):
+		case o.phase == 0 && o.spec.StopKind == stopStop && o.stopIssued && c.Continuous && (f.firstSTH < 0 || o.stopAt <= f.firstSTHAt):
 			v.Failf("stop-during-prepare-ignored", "Fetcher.Stop() was called at %v while Run was still fetching its first STH (answered at %v); the stop was lost and the continuous Run never returned (watchdog after %v of virtual time)",
-				o.stopAt, f.firstSTHAt, c.bound()+3*time.Hour+c.stopAt())
+				o.stopAt, f.firstSTHAt, c.bound()+3*time.Hour+o.planStop)
 		case o.stopIssued:
-			v.Failf("no-return-after-stop", "%s did not return after stop kind %d issued at %v (watchdog)", what, c.StopKind, o.stopAt)
+			v.Failf("no-return-after-stop", "%s (call %d) did not return after stop kind %d issued at %v (watchdog)", what, o.phase, o.spec.StopKind, o.stopAt)
 		default:
-			v.Failf("non-termination", "%s did not return although the range [%d, ...) was finite and never stopped (watchdog)", what, c.Start)
+			v.Failf("non-termination", "%s (call %d) did not return although the range [%d, ...) was finite and never stopped (watchdog)", what, o.phase, c.Start)
 		}
 		return false
 	}
@@ -76,10 +77,10 @@ func judgeTermination(c *Case, o *outcome, v *harness.Verdict, what string) bool
 		v.Failf("non-termination", "%s did not return", what)
 		return false
 	}
-	if c.Continuous && !o.stopIssued && len(o.aborts) == 0 && o.fake.firstSTH >= 0 && o.returnedAt < c.stopAt() {
+	if c.Continuous && !o.stopIssued && len(o.aborts) == 0 && o.firstSTH >= 0 && o.returnedAt < o.planStop {
 		// continuous mode "carries on with newly published entries": it ends by Stop / cancel only,
 		// whatever (finite) error bursts its get-sth polls meet
-		v.Failf("continuous-returned-unstopped", "%s in continuous mode returned %v at %v although neither Stop nor cancel had been issued (planned for %v); get-sth calls %d of which %d failed", what, o.err, o.returnedAt, c.stopAt(), o.fake.sthCalls, o.fake.sthErrs)
+		v.Failf("continuous-returned-unstopped", "%s (call %d, started at %v, Stop before first Run: %v) in continuous mode returned %v at %v although neither Stop nor cancel had been issued (planned for %v); get-sth calls %d of which %d failed", what, o.phase, o.startAt, c.PreStop, o.err, o.returnedAt, o.planStop, o.fake.sthCalls, o.fake.sthErrs)
 		return false
 	}
 	if o.late > 0 {
@@ -89,6 +90,7 @@ func judgeTermination(c *Case, o *outcome, v *harness.Verdict, what string) bool
 }
 
 type batchRec struct {
+	phase   int
 	start   int64
 	entries []ct.LeafEntry
 }
@@ -100,17 +102,18 @@ func checkFetch(t *testing.T, c Case) (v harness.Verdict) {
 	log := buildLog(c.finalSize(), c.PoolSeed, c.PoolStride)
 	var mu sync.Mutex
 	var got []batchRec
-	var late int64
-	o := runCase(t, "fetch", &c, log, func(f *fakeLog, returned *atomic.Bool) (func(ctx context.Context) error, func()) {
+	late := make([]int64, 2)
+	outs := runCase(t, "fetch", &c, log, func(f *fakeLog, st *runState) (func(ctx context.Context) error, func()) {
 		opts := &scanner.FetcherOptions{BatchSize: c.Batch, ParallelFetch: c.Fetchers, StartIndex: c.Start, EndIndex: c.End, Continuous: c.Continuous}
 		fe := scanner.NewFetcher(f, opts)
 		run := func(ctx context.Context) error {
 			return fe.Run(ctx, func(b scanner.EntryBatch) {
-				if returned.Load() {
-					atomic.AddInt64(&late, 1)
+				ph := int(st.phase.Load())
+				if st.returned.Load() {
+					atomic.AddInt64(&late[ph], 1)
 				}
 				mu.Lock()
-				got = append(got, batchRec{start: b.Start, entries: b.Entries})
+				got = append(got, batchRec{phase: ph, start: b.Start, entries: b.Entries})
 				mu.Unlock()
 				if d := c.cbLat(b.Start); d > 0 {
 					vt.Sleep(context.Background(), d)
@@ -119,17 +122,32 @@ func checkFetch(t *testing.T, c Case) (v harness.Verdict) {
 		}
 		return run, fe.Stop
 	})
-	o.late = late
-	classify(&c, o, &v)
-	ok := judgeTermination(&c, o, &v, "Fetcher.Run")
-	e := expect(&c, o)
+	classify(&c, outs, &v)
+	for _, o := range outs {
+		o.late = late[o.phase]
+		var mine []batchRec
+		for _, b := range got {
+			if b.phase == o.phase {
+				mine = append(mine, b)
+			}
+		}
+		judgeFetchPhase(&c, o, log, mine, &v)
+	}
+	return v
+}
+
+// judgeFetchPhase applies the delivery oracles to one Run call: exactly-once and completeness hold per call.
+func judgeFetchPhase(c *Case, o *outcome, log []truth, got []batchRec, v *harness.Verdict) {
+	ok := judgeTermination(c, o, v, "Fetcher.Run")
+	e := expect(c, o)
+	tag := fmt.Sprintf("call %d: ", o.phase)
 
 	if o.returned && !o.timedOut {
 		switch {
 		case e.first < 0 && o.err == nil:
-			v.Failf("prepare-error-swallowed", "no get-sth was ever answered but Run returned nil")
-		case e.first >= 0 && o.err != nil:
-			v.Failf("run-error", "Run returned %v although get-sth was answered", o.err)
+			v.Failf("prepare-error-swallowed", "%sno get-sth was ever answered but Run returned nil", tag)
+		case e.first >= 0 && o.err != nil && len(o.aborts) == 0:
+			v.Failf("run-error", "%sRun returned %v although get-sth was answered", tag, o.err)
 		}
 	}
 	count := map[int64]int{}
@@ -166,20 +184,20 @@ func checkFetch(t *testing.T, c Case) (v harness.Verdict) {
 		}
 	}
 	if dups > 0 {
-		v.Failf("duplicate-delivery", "%d indices delivered more than once; first: %s", dups, firstMsg["dup"])
+		v.Failf("duplicate-delivery", "%s%d indices delivered more than once; first: %s", tag, dups, firstMsg["dup"])
 	}
 	if wrong > 0 {
-		v.Failf("wrong-bytes", "%d deliveries with the wrong bytes; first: %s", wrong, firstMsg["wrong"])
+		v.Failf("wrong-bytes", "%s%d deliveries with the wrong bytes; first: %s", tag, wrong, firstMsg["wrong"])
 	}
 	if below > 0 {
 		if c.Continuous && e.first >= 0 && c.Start > e.first {
-			v.Failf("continuous-start-beyond-tree", "continuous fetch with StartIndex %d beyond the tree size %d at start-up delivered %d indices below StartIndex; first: %s", c.Start, e.first, below, firstMsg["below"])
+			v.Failf("continuous-start-beyond-tree", "%scontinuous fetch with StartIndex %d beyond the tree size %d at start-up delivered %d indices below StartIndex; first: %s", tag, c.Start, e.first, below, firstMsg["below"])
 		} else {
-			v.Failf("delivered-below-start", "%d deliveries below StartIndex; first: %s", below, firstMsg["below"])
+			v.Failf("delivered-below-start", "%s%d deliveries below StartIndex; first: %s", tag, below, firstMsg["below"])
 		}
 	}
 	if beyond > 0 {
-		v.Failf("delivered-beyond-range", "%d deliveries beyond the range; first: %s", beyond, firstMsg["beyond"])
+		v.Failf("delivered-beyond-range", "%s%d deliveries beyond the range; first: %s", tag, beyond, firstMsg["beyond"])
 	}
 	if ok && e.mustAll {
 		missing := 0
@@ -190,10 +208,10 @@ func checkFetch(t *testing.T, c Case) (v harness.Verdict) {
 			}
 		}
 		if missing > 0 {
-			v.Failf("missing-delivery", "%d indices never delivered (Run returned at %v, stop issued=%v at %v); first: %s", missing, o.returnedAt, o.stopIssued, o.stopAt, firstMsg["missing"])
+			v.Failf("missing-delivery", "%s%d indices never delivered (Run started at %v, returned at %v, stop issued=%v at %v, Stop before first Run: %v); first: %s", tag, missing, o.startAt, o.returnedAt, o.stopIssued, o.stopAt, c.PreStop, firstMsg["missing"])
 		}
 	}
-	if ok && c.StopKind == stopStop && o.stopIssued && below == 0 && len(count) > 0 {
+	if ok && o.spec.StopKind == stopStop && o.stopIssued && below == 0 && len(count) > 0 {
 		// graceful stop: "Run will try to finish all the started fetches" - what was delivered has no holes
 		idx := make([]int64, 0, len(count))
 		for i := range count {
@@ -201,17 +219,20 @@ func checkFetch(t *testing.T, c Case) (v harness.Verdict) {
 		}
 		sort.Slice(idx, func(a, b int) bool { return idx[a] < idx[b] })
 		if idx[0] != e.lo || idx[len(idx)-1] != e.lo+int64(len(idx))-1 {
-			v.Failf("gap-after-stop", "after a graceful Stop the delivered indices are not the contiguous run from %d: %d distinct indices between %d and %d", e.lo, len(idx), idx[0], idx[len(idx)-1])
+			v.Failf("gap-after-stop", "%safter a graceful Stop the delivered indices are not the contiguous run from %d: %d distinct indices between %d and %d", tag, e.lo, len(idx), idx[0], idx[len(idx)-1])
 		}
 	}
-	if e.mustAll {
-		v.Class("oracle:complete")
-	} else {
-		v.Class("oracle:partial")
+	pre := ""
+	if o.phase > 0 {
+		pre = "again-"
 	}
-	v.Class(fmt.Sprintf("delivered:%s", bucket(int64(len(count)))))
-	v.Class(fmt.Sprintf("range:%s", bucket(e.hi-e.lo)))
-	return v
+	if e.mustAll {
+		v.Class(pre + "oracle:complete")
+	} else {
+		v.Class(pre + "oracle:partial")
+	}
+	v.Class(fmt.Sprintf("%sdelivered:%s", pre, bucket(int64(len(count)))))
+	v.Class(fmt.Sprintf("%srange:%s", pre, bucket(e.hi-e.lo)))
 }
 
 func bucket(n int64) string {
@@ -229,10 +250,33 @@ func bucket(n int64) string {
 }
 
 // classify adds the class labels and the non-trivial rule shared by both sub-properties.
-func classify(c *Case, o *outcome, v *harness.Verdict) {
+func classify(c *Case, outs []*outcome, v *harness.Verdict) {
+	o := outs[0]
 	f := o.fake
 	if f == nil {
 		return
+	}
+	if c.PreStop {
+		v.Class("reuse:stop-before-first-run")
+	}
+	if len(outs) > 1 {
+		a := outs[1]
+		first := "completed"
+		if o.stopIssued {
+			first = fmt.Sprintf("stopped-kind%d", o.spec.StopKind)
+		}
+		second := "never-stopped"
+		switch {
+		case a.spec.StopKind != stopNever && !a.stopIssued:
+			second = "stop-after-return"
+		case a.spec.StopKind != stopNever && a.spec.StopAtMs < 0:
+			second = "stopped-after-settling"
+		case a.spec.StopKind != stopNever:
+			second = "stopped-midway"
+		}
+		v.Class("reuse:second-call", "reuse:first-"+first+",second-"+second)
+	} else if c.Again != nil {
+		v.Class("reuse:second-call-not-reached")
 	}
 	grew := f.grewAfter
 	v.NonTrivial = f.shortReads > 0 || len(f.errs) > 0 || f.sthErrs > 0 || c.Fetchers >= 2 || grew
@@ -293,7 +337,7 @@ func classify(c *Case, o *outcome, v *harness.Verdict) {
 		}
 		if short && c.Continuous && c.finalSize() > c.Start {
 			v.Class("start:approached-in-short-steps")
-			if o.stopIssued && o.stopAt >= c.lastGrowth()+c.settle() {
+			if o.stopIssued && o.stopAt >= o.completeBy {
 				v.Class("start:approached-in-short-steps-and-passed-before-stop")
 			}
 		}
